@@ -85,6 +85,18 @@ CHECKS = {
             "(pre-repair overflow refuted). Partial: termination and the request bound of the delegation loader are checked "
             "by correspondence (self/mutual delegation, DAGs) with the known finding F15; not yet proved.",
             NOTE + MODELLED, "5/C09"),
+    "C10": ("Coq proof of editor-then-client = identity for repositories without delegated roles (composition of the "
+            "editor's sign/write model with the client model), meta-exactness, threshold and incoming-metadata lemmas; random "
+            "editing programs through the real editor API, written to disk and loaded by the real client",
+            "Theorems: if the editor's sign step succeeds the client (same root) loads exactly the targets/snapshot/timestamp "
+            "the editor built, for all entries, versions, key sets, lengths/digests, both settings (C10_roundtrip_partial: no "
+            "delegated roles); snapshot and timestamp describe the written files exactly; signing needs the threshold; "
+            "incoming role metadata is incorporated only with a threshold of distinct authorised signatures and a version "
+            "not lower. Delegation chains to depth 3, inadequate thresholds and key sets, the cross-party flow, odd names, "
+            "copy/symlink publication and downloads are covered by the correspondence runs with an independent Python "
+            "tracker of what was put in. Known finding: url_encoded_target_name.",
+            NOTE + MODELLED + " The model of the editor is tied to the code only through these runs for programs with "
+            "delegations.", "5/C10"),
     "C11": ("Coq proof that the CanonicalFormatter state machine (driven by serde_json's event sequence) computes the "
             "recursive OLPC specification; order-independence and sortedness theorems; differential correspondence "
             "and independent Python specification oracle",
